@@ -36,13 +36,14 @@ CONSTANTS N,          \* participants 0..N-1
           BadFrom,    \* claimed signers of the injected bad partials
           Joint,      \* TRUE: the participants JointParts act (model check); FALSE: one focus participant (generator)
           JointParts,
+          MsgSet,     \* message classes of the session: subset of {"nil","empty","b1","text","b64","b4096"}
           FocusSet,   \* generator: the focus participant is one of these
           SelfRecv,   \* a participant may be handed its own partial (issued by a second object of its own)
           L,          \* bound on Len(hist) (generator)
           EmitMode    \* "none" | "done" (every maximal behaviour) | "len" (at Len(hist) = L) | "tour" (hist kept, EmitEdge prints)
 
-VARIABLES t, focus, acc, signed, bad, delivered, hist
-vars == <<t, focus, acc, signed, bad, delivered, hist>>
+VARIABLES t, msg, focus, acc, signed, bad, delivered, hist
+vars == <<t, msg, focus, acc, signed, bad, delivered, hist>>
 
 Idx == 0..N-1
 
@@ -72,20 +73,33 @@ ASSUME \A tt \in TSet : \A h \in Chal :
 -----------------------------------------------------------------------------
 Parts == IF Joint THEN JointParts ELSE {focus}
 
+\* MESSAGES.  The message of a session is an arbitrary byte string ("all messages"): the classes
+\* are the nil slice, the non-nil empty string, 1 byte, a 24-byte text, 64 and 4096 bytes.  A
+\* partial for ANY other message must be rejected; the other message is taken relative to the
+\* session's: the empty string / one byte (empty vs 1-byte pair), the message without its last
+\* byte (prefix), with one more byte (extension), with its last byte changed (flip).  nil and
+\* the empty string are the same message.
+MsgLen(m) == CASE m = "nil" -> 0 [] m = "empty" -> 0 [] m = "b1" -> 1 [] m = "text" -> 24
+               [] m = "b64" -> 64 [] m = "b4096" -> 4096
+OtherVariants(m) == {"ext"} \cup (IF MsgLen(m) = 0 THEN {"b1"} ELSE {"empty", "flip"})
+                            \cup (IF MsgLen(m) >= 2 THEN {"prefix"} ELSE {})
+
 Init ==
-  /\ t \in TSet
+  /\ t \in TSet /\ msg \in MsgSet
   /\ focus \in (IF Joint THEN {0} ELSE FocusSet)
   /\ acc = [p \in Idx |-> {}] /\ signed = [p \in Idx |-> FALSE] /\ bad = [p \in Idx |-> 0]
   /\ delivered = [p \in Idx |-> {}]
-  /\ hist = <<[op |-> "new", n |-> N, t |-> t, p |-> focus]>>
+  /\ hist = <<[op |-> "new", n |-> N, t |-> t, p |-> focus, msg |-> msg]>>
 
 Enough(p) == Cardinality(acc[p]) >= t
 
-Log(op, p, kind, i, res, acc2, signed2) ==
+LogV(op, p, kind, v, i, res, acc2, signed2) ==
   IF EmitMode = "none" THEN hist' = hist
-  ELSE hist' = Append(hist, [op |-> op, p |-> p, kind |-> kind, from |-> i, res |-> res,
+  ELSE hist' = Append(hist, [op |-> op, p |-> p, kind |-> kind, var |-> v, from |-> i, res |-> res,
                              acc |-> acc2, signed |-> signed2,
                              enough |-> Cardinality(acc2) >= t])
+
+Log(op, p, kind, i, res, acc2, signed2) == LogV(op, p, kind, "", i, res, acc2, signed2)
 
 Sign(p) ==
   /\ ~signed[p]
@@ -93,7 +107,7 @@ Sign(p) ==
   /\ acc' = [acc EXCEPT ![p] = @ \cup {p}]
   /\ delivered' = [delivered EXCEPT ![p] = @ \cup {p}]
   /\ Log("sign", p, "first", p, "ok", acc[p] \cup {p}, TRUE)
-  /\ UNCHANGED <<t, focus, bad>>
+  /\ UNCHANGED <<t, msg, focus, bad>>
 
 \* a valid partial of a signer not yet held: accepted
 RecvValid(p, i) ==
@@ -102,7 +116,7 @@ RecvValid(p, i) ==
   /\ acc' = [acc EXCEPT ![p] = @ \cup {i}]
   /\ delivered' = [delivered EXCEPT ![p] = @ \cup {i}]
   /\ Log("recv", p, "valid", i, "accept", acc[p] \cup {i}, signed[p])
-  /\ UNCHANGED <<t, focus, signed, bad>>
+  /\ UNCHANGED <<t, msg, focus, signed, bad>>
 
 \* everything else is rejected and leaves the object unchanged
 RecvBad(p, kind, i) ==
@@ -114,8 +128,10 @@ RecvBad(p, kind, i) ==
   /\ bad' = [bad EXCEPT ![p] = @ + 1]
   /\ IF kind = "resign"
      THEN Log("sign", p, "again", p, "ok", acc[p], signed[p])
+     ELSE IF kind = "othermsg"
+     THEN \E v \in OtherVariants(msg) : LogV("recv", p, kind, v, i, "reject", acc[p], signed[p])
      ELSE Log("recv", p, kind, i, "reject", acc[p], signed[p])
-  /\ UNCHANGED <<t, focus, acc, signed, delivered>>
+  /\ UNCHANGED <<t, msg, focus, acc, signed, delivered>>
 
 \* nothing but the final phase is left for p: signed, every valid partial held, budget spent
 Exhausted(p) == /\ signed[p] /\ bad[p] = MaxBad
@@ -130,9 +146,9 @@ VerifyAll(p) ==
   /\ EmitMode # "none" /\ ~Finished
   /\ Enough(p)
   /\ Exhausted(p) \/ Len(hist) = L - 1
-  /\ hist' = Append(hist, [op |-> "verifyall", p |-> p, kind |-> "concurrent", from |-> N, res |-> "valid",
+  /\ hist' = Append(hist, [op |-> "verifyall", p |-> p, kind |-> "concurrent", var |-> "", from |-> N, res |-> "valid",
                             acc |-> acc[p], signed |-> signed[p], enough |-> TRUE])
-  /\ UNCHANGED <<t, focus, acc, signed, bad, delivered>>
+  /\ UNCHANGED <<t, msg, focus, acc, signed, bad, delivered>>
 
 Next ==
   /\ (EmitMode = "none" \/ Len(hist) < L)
@@ -145,10 +161,10 @@ Next ==
 
 Spec == Init /\ [][Next]_vars
 
-View == <<t, focus, acc, signed, bad, delivered>>
+View == <<t, msg, focus, acc, signed, bad, delivered>>
 
 -----------------------------------------------------------------------------
-TypeOK == /\ t \in TSet /\ focus \in Idx
+TypeOK == /\ t \in TSet /\ focus \in Idx /\ msg \in {"nil", "empty", "b1", "text", "b64", "b4096"}
           /\ \A p \in Idx : acc[p] \subseteq Idx /\ bad[p] \in 0..MaxBad
 
 \* exactly the valid partials delivered (and the own one) are held: nothing invalid, forged,
